@@ -199,7 +199,7 @@ func (env *Env) importedPkg(name string) *types.Package {
 		}
 	}
 	// well-known aliases in this repo
-	alias := map[string]string{"gcmn": "gemmill/modules/go-common", "merkle": "gemmill/modules/go-merkle", "crypto": "gemmill/go-crypto", "wire": "gemmill/go-wire", "gtypes": "gemmill/types", "sm": "gemmill/state", "dbm": "gemmill/modules/go-db"}
+	alias := map[string]string{"rtypes": "chain/types", "etypes": "eth/core/types", "estate": "eth/core/state", "agtypes": "gemmill/types", "gcmn": "gemmill/modules/go-common", "merkle": "gemmill/modules/go-merkle", "crypto": "gemmill/go-crypto", "wire": "gemmill/go-wire", "gtypes": "gemmill/types", "sm": "gemmill/state", "dbm": "gemmill/modules/go-db"}
 	if p, ok := alias[name]; ok {
 		if sp, ok := env.e.pkgByPath[p]; ok {
 			return sp.Pkg
